@@ -44,6 +44,7 @@ type Exec struct {
 	// subsumes all iterations; concrete unrolling beyond Unroll visits is then simply cut. Keeps path counts linear.
 	WidenAtEntry bool
 	texts        map[string]textMeaning // abs_text.go
+	WriterContract bool // unknown io.Writer: split each Write into (all accepted, nil) / (short, error)
 	Stats      struct{ Instrs, Calls, Forks, Widen, CopyLoops int }
 }
 
@@ -192,6 +193,16 @@ func (ex *Exec) Call(st *State, fn *ssa.Function, args []Val, parent *Frame) []O
 			st = st.Clone() // a harness may run several calls from one prepared state: never refine it in place
 		}
 	}
+	// a harness hands objects by pointer; a method declared with a value receiver gets a copy of the object
+	if parent == nil && fn.Signature.Recv() != nil && len(args) > 0 {
+		if _, isPtr := fn.Signature.Recv().Type().(*types.Pointer); !isPtr {
+			if pv, ok := args[0].(*PtrV); ok && !pv.Unk && !pv.Nil && len(pv.Path) == 0 {
+				if sv, ok := st.heap[pv.Obj].(*StructV); ok {
+					args = append([]Val{cloneVal(sv)}, args[1:]...)
+				}
+			}
+		}
+	}
 	for i, p := range fn.Params {
 		if i < len(args) {
 			fr.regs[p] = args[i]
@@ -304,6 +315,16 @@ func (ex *Exec) enter(fr *Frame, st *State, b *ssa.BasicBlock, prev *ssa.BasicBl
 		return ex.execFrom(fr, st, b, firstNonPhi(b), prev)
 	}
 	if isHead && prev != nil {
+		if li := ex.loopHeads(fr.fn)[b]; li != nil && !li.Body[prev] {
+			// a fresh entry of the loop (first, or again from an enclosing loop): unroll budget, widening state and the
+			// kept invariants are per entry — "arrival at a widened head" below means arrival over a back edge
+			fr.visits[b] = 0
+			delete(fr.widened, b)
+			for _, phi := range phis {
+				delete(fr.phiHist, phi)
+				delete(fr.kept, phi)
+			}
+		}
 		fr.visits[b]++
 		if fr.widened[b] {
 			// second arrival at a widened head: the kept invariants must be inductive, then the path is subsumed
@@ -361,6 +382,9 @@ func (ex *Exec) enter(fr *Frame, st *State, b *ssa.BasicBlock, prev *ssa.BasicBl
 	}
 	return ex.execFrom(fr, st, b, firstNonPhi(b), prev)
 }
+
+// forkProfile (debugging, ABSDEBUG): where the partitions split.
+var forkProfile map[string]int
 
 func firstNonPhi(b *ssa.BasicBlock) int {
 	for i, in := range b.Instrs {
@@ -545,6 +569,9 @@ func (ex *Exec) execFrom(fr *Frame, st *State, b *ssa.BasicBlock, idx int, prev 
 				return ex.enter(fr, st, b.Succs[1], b)
 			}
 			ex.Stats.Forks++
+			if forkProfile != nil {
+				forkProfile[ex.pos(x)+" "+condString(x.Cond)]++
+			}
 			ex.paths++
 			if ex.paths > ex.MaxPaths {
 				ex.Budget = true
@@ -1003,7 +1030,7 @@ func (ex *Exec) binop(fr *Frame, st *State, x *ssa.BinOp) Val {
 				if x.Op == token.SHR {
 					return st.ShiftR(ai, int(k))
 				}
-				return st.Shift(x.Op, ai, int(k))
+				return st.ShiftL(ai, int(k))
 			}
 			// variable shift: unknown, but bounded for right shifts of non-negative values
 			lo, hi := st.Range(ai)
